@@ -209,7 +209,16 @@ func c02LongDigest(r *simkit.Run, w *World) {
 	n := 33 + tp.Choose(96, "longDigest.len")
 	proto := &cidlink.LinkPrototype{Prefix: cid.Prefix{Version: 1, Codec: uint64(multicodec.DagJson), MhType: multihash.BLAKE3, MhLength: n}}
 	nAds := tp.Range(1, 4, "longDigest.ads")
-	pub := w.NewPublisher(PubOpts{Name: "P1", NAds: nAds, Hosts: []string{"10.0.0.1:3104"}, Proto: proto, LongDigest: true})
+	po := PubOpts{Name: "P1", NAds: nAds, Hosts: []string{"10.0.0.1:3104"}, Proto: proto, LongDigest: true}
+	if nAds > 1 && tp.Chance(1, 2, "longDigest.below") {
+		// the head has an ordinary CID; one of the older advertisements has
+		// the long digest: the block a sync starts from is not the only one
+		// whose CID counts
+		at := tp.Choose(nAds-1, "longDigest.at")
+		po.LongDigestFor = func(ad int) bool { return ad == at }
+		r.Probe("long-digest-below-the-head")
+	}
+	pub := w.NewPublisher(po)
 	sub := w.NewSubscriber(dagsync.RecvAnnounce(""), dagsync.SegmentDepthLimit(int64(tp.Choose(3, "longDigest.seg"))-1))
 	lst := &listener{}
 	lst.ch, lst.cancel = sub.Sub.OnSyncFinished()
@@ -234,12 +243,12 @@ func c02LongDigest(r *simkit.Run, w *World) {
 		}
 		if err != nil {
 			r.Probe("long-digest-refused")
-			if len(sub.HooksSince(hook0)) != 0 {
+			if len(sub.HooksSince(hook0)) != 0 && po.LongDigestFor == nil {
 				r.Violate("c02.hooked", "sync of a chain with %d-byte blake3 digests failed (%v) after handing %d blocks to the hook", n, err, len(sub.HooksSince(hook0)))
 			}
 		} else {
 			r.Probe("long-digest-synced")
-			if got := hookNames(sub.HooksSince(hook0)); len(got) != nAds {
+			if got := hookNames(sub.HooksSince(hook0)); len(got) != nAds && po.LongDigestFor == nil {
 				r.Violate("c02.hooked", "sync of a chain of %d advertisements with %d-byte blake3 digests succeeded with hook calls %v", nAds, n, got)
 			}
 		}
